@@ -235,8 +235,8 @@ func checkC11(w *World, r *Report) {
 			case *ssa.Call:
 				if f := x.Call.StaticCallee(); f != nil && ctors[f] {
 					// a constructor that receives the includer's context (Clone) links/reads through
-					for _, a := range x.Call.Args {
-						if origin(a) == ssa.Value(incCtx) {
+					for ai, a := range x.Call.Args {
+						if origin(a) == ssa.Value(incCtx) && ctorReadsScope(f, ai, ctors, 0) {
 							what = "call " + ssaName(f) + " on the includer's context (read-through scope)"
 						}
 					}
@@ -1540,4 +1540,54 @@ func checkScopesAskedInnermostFirst(w *World, r *Report) {
 		})
 	}
 	r.Counts["reads of a context reached by a parent walk"] = n
+}
+
+// ctorReadsScope: does the context constructor f take variables (or a link) from the context it
+// receives as argument ai?  It does not when all it does with that context is read fields that
+// are neither maps nor contexts (environment, engine, sandbox switch, root template): a helper
+// that builds a detached context for the same render.  Anything else — a map field read, the
+// context stored or handed on to something that is not such a helper — counts as reading through.
+func ctorReadsScope(f *ssa.Function, ai int, ctors map[*ssa.Function]bool, depth int) bool {
+	if ai >= len(f.Params) || depth > 3 || len(f.Blocks) == 0 {
+		return true
+	}
+	p := f.Params[ai]
+	if p.Referrers() == nil {
+		return false
+	}
+	for _, ref := range *p.Referrers() {
+		switch x := ref.(type) {
+		case *ssa.FieldAddr:
+			ft := x.Type().(*types.Pointer).Elem()
+			if _, isMap := ft.Underlying().(*types.Map); isMap {
+				return true
+			}
+			if isNamed(ft, twigPath, "RenderContext") {
+				return true
+			}
+			// the field itself must only be read
+			if x.Referrers() != nil {
+				for _, r2 := range *x.Referrers() {
+					if u, ok := r2.(*ssa.UnOp); !ok || u.Op != token.MUL {
+						return true
+					}
+				}
+			}
+		case *ssa.DebugRef:
+		case *ssa.Call:
+			g := x.Call.StaticCallee()
+			if g == nil || !ctors[g] {
+				return true
+			}
+			for k, a := range x.Call.Args {
+				if a == ssa.Value(p) && ctorReadsScope(g, k, ctors, depth+1) {
+					return true
+				}
+			}
+		case *ssa.BinOp: // nil test
+		default:
+			return true
+		}
+	}
+	return false
 }
